@@ -38,6 +38,17 @@ THERMAL_BASES = {
     "thermal_rice_off": (A._b(soil="ClayLoam", word="normal", crop="PaddyRiceGDD", win="w2", off=True, iwc="SAT"), 250),
     "thermal_wheat_smt": (A._b(soil="SandyLoam", word="mix", crop="WheatGDD", win="w1", irr="smt"), 200),
 }
+
+
+def _late_start_leap():
+    """A thermal crop in a window that opens AFTER the sowing day of its start year, with a 29 February before the first sowing day
+    (2004/05/01); the second season is cool (cut by the latest harvest date), so a harvest date that is one day off changes results."""
+    s = A.catalogue_spec("MaizeGDD", word="hot", start="2003/06/01", end="2005/12/30")
+    s["weather"]["blocks"] = [[700, 930, "chilly"]]
+    return s
+
+
+THERMAL_BASES["thermal_maize_late_start_leap"] = _late_start_leap
 A.IRR.setdefault("smt_wet40", {"method": 1, "kw": {"SMT": [70] * 4, "WetSurf": 40, "AppEff": 90}})
 
 
@@ -232,7 +243,9 @@ _BASE = {}
 
 def base_for(b):
     if b not in _BASE:
-        if b in THERMAL_BASES:
+        if b in THERMAL_BASES and callable(THERMAL_BASES[b]):
+            spec = THERMAL_BASES[b]()
+        elif b in THERMAL_BASES:
             cfg, span = THERMAL_BASES[b]
             spec = A.to_spec(cfg)
             nseas = A.WINDOWS[cfg["win"]]["seasons"]
@@ -282,7 +295,7 @@ def run(scn):
 
 def describe(tier):
     return {
-        "rule": "15 bases (rainfed on clay / with off-season / with a water table; threshold; interval; net; constant depth; schedule with bunds; constant depth and threshold irrigation with a partially wetted surface; rainfed bunds; three THERMAL-TIME crops whose weather-derived first season is much longer or shorter than the nominal calendar length in the crop table, the explicit default harvest date there computed by the independent degree-day model) x each of 24 neutral "
+        "rule": f"{len(BASES) + len(THERMAL_BASES)} bases (rainfed on clay / with off-season / with a water table; threshold; interval; net; constant depth; schedule with bunds; constant depth and threshold irrigation with a partially wetted surface; rainfed bunds; three THERMAL-TIME crops whose weather-derived first season is much longer or shorter than the nominal calendar length in the crop table, the explicit default harvest date there computed by the independent degree-day model) x each of 24 neutral "
                 "transformations (mulch / bund / CN-percentage parameters with the feature off, in the season and the fallow struct; parameters of non-selected strategies "
                 "incl. a schedule; efficiency and wetted fraction without irrigation; mulches on with cover 0 or factor 0; depth 0, empty schedule, daily or seasonal "
                 "maximum 0 (each equivalent to rainfed); explicit default latest-harvest date) alone and " + ("every 7th pair" if tier == "quick" else "ALL pairs") + "; all four tables bitwise equal to the base run.",
